@@ -258,6 +258,21 @@ func (s *state) walk(node parse.Node) error {
 		// template whose own top level is never rendered (one that extends).
 		s.registerMacros(node.BodyNode)
 		if p := node.Parent; p != nil {
+			// What the template assigns or imports above its extends tag takes
+			// effect first: the tag's expression may depend on it.
+			early := make(map[parse.Node]bool)
+			for _, c := range node.BodyNode.All() {
+				if at, ext := c.Start(), p.Start(); at.Line > ext.Line || (at.Line == ext.Line && at.Offset >= ext.Offset) {
+					break
+				}
+				switch c.(type) {
+				case *parse.SetNode, *parse.ImportNode, *parse.FromNode:
+					if err := s.walk(c); err != nil {
+						return err
+					}
+					early[c] = true
+				}
+			}
 			tplName, err := s.evalExpr(p.Tpl)
 			if err != nil {
 				return err
@@ -272,9 +287,13 @@ func (s *state) walk(node parse.Node) error {
 			}(s.name)
 			s.name = name
 			s.blocks = append(s.blocks, tree.Blocks())
-			err = s.walkChild(node.BodyNode)
-			if err != nil {
-				return err
+			for _, c := range node.BodyNode.All() {
+				if early[c] {
+					continue
+				}
+				if err := s.walkChild(c); err != nil {
+					return err
+				}
 			}
 			return s.walk(tree.Root())
 		}
